@@ -278,10 +278,14 @@ func ruleTxAtomic(w *World, r *Report) {
 				txs = append(txs, in)
 			}
 		})
-		if len(txs) < 2 {
+		if len(txs) == 0 {
 			continue
 		}
 		key := "fn=" + fname(fn)
+		if len(txs) == 1 {
+			r.ok("TX-ATOMIC", key, w.Pos(fn.Pos()), "a single transaction")
+			continue
+		}
 		bad := ""
 		for i, t1 := range txs {
 			mc, ok := callOf(t1).Args[len(callOf(t1).Args)-1].(*ssa.MakeClosure)
